@@ -4,6 +4,7 @@ import TsVerif.C04.Judge
 import TsVerif.C04.Geometry
 import TsVerif.C04.Ends
 import TsVerif.C04.Reach
+import TsVerif.C04.Points
 /-!
 # C04 — Changed ranges cover every position whose ancestor chain changed
 
@@ -30,8 +31,13 @@ on every real case; JUDGED = decided on every real output by the Lean judge `Jud
      not exhausted.  Outside the premises (~2 % of real pairs: one tree ends before the other root starts):
      `changed_sorted_bounded_partial` under `traceAdmissible` (evaluated), which gives `start ≤ end` only — real
      traces there do hold a transient `[0,0)`.
-   * JUDGED on every real output: `rangesOrdered` (bytes AND points: the theorems are about bytes; points are
-     compared by the correspondence and judged).
+   * POINTS (row/column): `ranges_points_from_calls` + `walk_positions` (`Points.lean`, for ALL tree pairs): every
+     reported (start_byte, start_point) and (end_byte, end_point) is the (bytes, extent) of ONE `Length` of the walk —
+     bytes and points never travel separately.  That a walk position's extent is the row/column of its byte offset is
+     the consistency of the trees' stored `Length`s with the text (C10's `Cons`), a property of trees, not of this
+     function; given it the point versions of clauses 1–3 follow from the byte versions (monotone `pointAt`).
+   * JUDGED on every real output: `rangesOrdered` (bytes AND points); the correspondence compares the port's points
+     with the implementation's.
 2. "inside the document"
    * PARTIAL — `changed_sorted_bounded`: every range ends at or before the end of the LONGER of the two trees
      (`end_le`: a cursor never ends beyond its root).  Weaker than the English in one respect: "the document" is the
